@@ -1749,6 +1749,7 @@ func TestVerifC15(t *testing.T) {
 			e := c15runCase(fmt.Sprint(ci), r, fix16, fix17, fix17b, nops)
 			e.oracle = nil
 			e.cli = nil
+			e.memTS, e.memCu, e.cur, e.tss = nil, nil, nil, nil
 			e.blob = nil
 			e.ra = nil
 			envs[ci] = e
